@@ -24,10 +24,85 @@ pub fn verif_dir() -> PathBuf {
         .map(PathBuf::from)
         .unwrap_or_else(|_| PathBuf::from("/verif"))
 }
-/// A worker that reports nothing for this long is considered stalled.  The
-/// step clock catches loops inside html2text deterministically long before;
-/// this backstop exists for loops that contain no tick site.
+/// A run in which nothing happens for this long - no scheduler event, no
+/// step of the step clock - is stalled.  The step clock catches loops inside
+/// html2text deterministically long before; this backstop exists for loops
+/// that contain no tick site and for deadlocks.  It is judged inside the
+/// executing process by a watchdog thread that looks at the progress
+/// counter, not by the wall-clock time between two reports: a run that is
+/// merely slow because the machine is overloaded (every baton hand-over is a
+/// context switch) keeps counting and is never mistaken for a hang.
 const STALL_SECS: u64 = 240;
+/// (H2TSIM_STALL_SECS overrides it, for testing the watchdog itself.)
+fn stall_secs() -> u64 {
+    std::env::var("H2TSIM_STALL_SECS")
+        .ok()
+        .and_then(|s| s.parse().ok())
+        .unwrap_or(STALL_SECS)
+}
+/// The driver's own wall-clock limit per run is only a last resort.
+const HARD_LIMIT_SECS: u64 = 3600;
+/// Exit status of a process whose watchdog found it stalled.
+const STALL_EXIT: i32 = 4;
+
+static RUN_ACTIVE: std::sync::atomic::AtomicBool = std::sync::atomic::AtomicBool::new(false);
+/// CPU time of this process (ms) when the current run started.
+static RUN_CPU_START_MS: std::sync::atomic::AtomicU64 = std::sync::atomic::AtomicU64::new(0);
+
+fn process_cpu_ms() -> u64 {
+    let mut ts = libc::timespec { tv_sec: 0, tv_nsec: 0 };
+    unsafe {
+        libc::clock_gettime(libc::CLOCK_PROCESS_CPUTIME_ID, &mut ts);
+    }
+    ts.tv_sec as u64 * 1000 + ts.tv_nsec as u64 / 1_000_000
+}
+
+/// Start the stall watchdog of this (worker or run-scenario) process.
+fn spawn_watchdog() {
+    use std::sync::atomic::Ordering;
+    std::thread::spawn(|| {
+        let mut last = crate::sched::PROGRESS.load(Ordering::Relaxed);
+        let mut since = Instant::now();
+        loop {
+            std::thread::sleep(Duration::from_secs(2));
+            let now = crate::sched::PROGRESS.load(Ordering::Relaxed);
+            if now != last || !RUN_ACTIVE.load(Ordering::Relaxed) {
+                last = now;
+                since = Instant::now();
+            } else if since.elapsed().as_secs() >= stall_secs() {
+                eprintln!(
+                    "h2tsim: STALL-WATCHDOG: no scheduler event and no step for {} s",
+                    stall_secs()
+                );
+                std::process::exit(STALL_EXIT);
+            }
+            // A run which does move, but has used this much processor time,
+            // is too slow to count as terminating (CPU time, not wall-clock
+            // time: the verdict does not depend on how busy the machine is).
+            if RUN_ACTIVE.load(Ordering::Relaxed) {
+                let used = process_cpu_ms().saturating_sub(RUN_CPU_START_MS.load(Ordering::Relaxed));
+                if used >= stall_secs() * 1000 {
+                    eprintln!(
+                        "h2tsim: STALL-WATCHDOG: the run has used {} s of processor time",
+                        used / 1000
+                    );
+                    std::process::exit(STALL_EXIT);
+                }
+            }
+        }
+    });
+}
+
+/// `evaluate` with the watchdog armed.
+fn evaluate_watched(scen: &Scenario, trace: bool) -> crate::eval::Eval {
+    use std::sync::atomic::Ordering;
+    crate::sched::PROGRESS.fetch_add(1, Ordering::Relaxed);
+    RUN_CPU_START_MS.store(process_cpu_ms(), Ordering::Relaxed);
+    RUN_ACTIVE.store(true, Ordering::Relaxed);
+    let ev = evaluate(scen, trace);
+    RUN_ACTIVE.store(false, Ordering::Relaxed);
+    ev
+}
 const SITE_NAMES: &[&str] = &[
     "TreeNode",
     "TableShrink",
@@ -330,6 +405,7 @@ pub fn cmd_worker(args: &[String]) -> i32 {
     let seed: u64 = args[1].parse().unwrap();
     let quick = args[2] == "quick";
     set_limits();
+    spawn_watchdog();
     let stdin = std::io::stdin();
     let stdout = std::io::stdout();
     let mut out = stdout.lock();
@@ -349,7 +425,7 @@ pub fn cmd_worker(args: &[String]) -> i32 {
                     out.flush().unwrap();
                     let scen = generate(&prop, seed, idx, quick);
                     let t0 = Instant::now();
-                    let ev = evaluate(&scen, false);
+                    let ev = evaluate_watched(&scen, false);
                     let ms = t0.elapsed().as_millis() as u64;
                     if ms > agg.slowest_run_ms {
                         agg.slowest_run_ms = ms;
@@ -374,7 +450,7 @@ pub fn cmd_worker(args: &[String]) -> i32 {
                 out.flush().unwrap();
                 match load_scenario(Path::new(path)) {
                     Ok(scen) => {
-                        let ev = evaluate(&scen, false);
+                        let ev = evaluate_watched(&scen, false);
                         account(&mut agg, &scen, idx, &ev);
                         if let Some(v) = ev.violation {
                             let rf = ReplayFile {
@@ -504,7 +580,9 @@ pub fn run_isolated_file(path: &Path, timeout: Duration) -> Iso {
                     };
                 }
             }
-            if st.success() || st.code() == Some(2) {
+            if st.code() == Some(STALL_EXIT) {
+                Iso::Hang
+            } else if st.success() || st.code() == Some(2) {
                 Iso::HarnessError(format!("child gave no verdict ({})", describe_status(&st)))
             } else {
                 let tail = final_tail(&errtail);
@@ -533,7 +611,8 @@ pub fn cmd_run_scenario(args: &[String]) -> i32 {
             return 2;
         }
     };
-    let ev = evaluate(&scen, trace);
+    spawn_watchdog();
+    let ev = evaluate_watched(&scen, trace);
     if let Some(t) = &ev.res.log.trace {
         for l in t {
             println!("T {}", l);
@@ -587,7 +666,7 @@ pub fn iso_violation(prop: &str, iso: &Iso, scen: &Scenario) -> Option<Violation
             property: prop.to_string(),
             kind: "hang".into(),
             signature: "hang".into(),
-            detail: format!("no progress for the stall limit (class {})", scen.class),
+            detail: format!("stalled: no scheduler event and no step for {} s, or {} s of processor time used (class {})", STALL_SECS, STALL_SECS, scen.class),
         }),
         Iso::HarnessError(_) => None,
     }
@@ -841,7 +920,7 @@ fn manager(prop: String, seed: u64, tier: String, quick: bool, sh: Arc<Shared>) 
             let mut finished = false;
             let mut died: Option<&'static str> = None;
             loop {
-                match w.rx.recv_timeout(Duration::from_secs(STALL_SECS)) {
+                match w.rx.recv_timeout(Duration::from_secs(HARD_LIMIT_SECS)) {
                     Ok(Some(line)) => {
                         if let Some(rest) = line.strip_prefix("S ") {
                             last_started = rest.parse().ok();
@@ -888,6 +967,9 @@ fn manager(prop: String, seed: u64, tier: String, quick: bool, sh: Arc<Shared>) 
             }
             // The worker died or stalled: attribute it to the announced run.
             let status = w.child.wait().ok();
+            if status.as_ref().and_then(|s| s.code()) == Some(STALL_EXIT) {
+                died = Some("stalled");
+            }
             let tail = final_tail(&w.errtail);
             let (death_class, how) = match (died, &status) {
                 (Some("stalled"), _) => ("stall", "stall".to_string()),
@@ -1204,7 +1286,7 @@ fn finalise_violation(rf: ReplayFile, budget_secs: u64) -> (ReplayFile, String) 
         note = "not minimised (budget)".to_string();
     }
     // verify in a fresh process
-    let iso = run_isolated(&cur.scenario, Duration::from_secs(STALL_SECS));
+    let iso = run_isolated(&cur.scenario, Duration::from_secs(HARD_LIMIT_SECS));
     match iso_violation(&prop, &iso, &cur.scenario) {
         Some(v) if v.signature == sig => {
             cur.violation = v;
@@ -1213,7 +1295,7 @@ fn finalise_violation(rf: ReplayFile, budget_secs: u64) -> (ReplayFile, String) 
         }
         _ => {
             // fall back to the unminimised scenario
-            let iso = run_isolated(&orig.scenario, Duration::from_secs(STALL_SECS));
+            let iso = run_isolated(&orig.scenario, Duration::from_secs(HARD_LIMIT_SECS));
             match iso_violation(&prop, &iso, &orig.scenario) {
                 Some(v) if v.signature == sig => (
                     ReplayFile {
@@ -1331,7 +1413,7 @@ fn write_evidence(
             "seeded sampling: a clean batch is evidence, not proof",
             "std::collections RandomState keys are not controlled by the simulator (sampled: repeated ops and fresh threads); html2text does not iterate over hash containers",
             "allocation failure is not injected (Rust aborts on OOM by design); workers run under RLIMIT_AS only as a safety net",
-            "the wall-clock stall backstop only covers loops that contain no tick site"
+            "the stall backstop (no scheduler event and no step for 240 s, or 240 s of processor time used by one run; judged by a watchdog inside the executing process, independent of machine load) only covers loops that contain no tick site, deadlocks and runs that are too slow per step"
         ],
         "wall_s": wall,
         "violations": violations,
@@ -1357,7 +1439,7 @@ pub fn cmd_replay(args: &[String]) -> i32 {
             return 2;
         }
     };
-    let iso = run_isolated(&rf.scenario, Duration::from_secs(STALL_SECS));
+    let iso = run_isolated(&rf.scenario, Duration::from_secs(HARD_LIMIT_SECS));
     let r = match &iso {
         Iso::HarnessError(e) => {
             eprintln!("h2tsim: harness error: {}", e);
